@@ -125,6 +125,28 @@ for val in ("example.com/nomatch", M + "x", "nosuch/*", M + "/a/deeper"):
         R.violation("no-match-accepted", "GOGARBLE=%s matches nothing but garble exits %d (binary written: %s)" % (val, p.returncode, os.path.exists(d + "/out")))
     elif b"GOGARBLE" not in p.stderr:
         R.violation("no-match-message", "GOGARBLE=%s: error does not mention GOGARBLE: %s" % (val, short(p.stderr, 300)))
+# test variants: GOGARBLE=<pkg> must also cover the package's internal and external test variants ("foo [foo.test]", "foo_test")
+TMOD = {"go.mod": "module example.com/qzt\n\ngo 1.26\n",
+        "p/p.go": "package p\n\n//go:noinline\nfunc QzProdFuncKx(n int) int { return n + 1 }\n",
+        "p/p_internal_test.go": "package p\n\nimport \"testing\"\n\n//go:noinline\nfunc qzInternalHelperKx(n int) int { return QzProdFuncKx(n) * 2 }\n\nfunc TestInternal(t *testing.T) {\n\tif qzInternalHelperKx(1) != 4 {\n\t\tt.Fatal(\"bad\")\n\t}\n}\n",
+        "p/p_external_test.go": "package p_test\n\nimport (\n\t\"testing\"\n\n\t\"example.com/qzt/p\"\n\t\"example.com/qzt/q\"\n)\n\n//go:noinline\nfunc qzExternalHelperKx(n int) int { return p.QzProdFuncKx(n) + q.QzOtherFuncKx(n) }\n\nfunc TestExternal(t *testing.T) {\n\tif qzExternalHelperKx(1) != 5 {\n\t\tt.Fatal(\"bad\")\n\t}\n}\n",
+        "q/q.go": "package q\n\n//go:noinline\nfunc QzOtherFuncKx(n int) int { return n + 2 }\n"}
+for val, sel in (("example.com/qzt/p", {"QzProdFuncKx", "qzInternalHelperKx", "qzExternalHelperKx"}), ("example.com/qzt/q", {"QzOtherFuncKx"}), ("example.com/qzt", {"QzProdFuncKx", "qzInternalHelperKx", "qzExternalHelperKx", "QzOtherFuncKx"})):
+    d = g.newdir("tv"); write_module(d, TMOD)
+    p = g.garble([], "test", ["-c", "-o", "test.bin", "./p"], d, extra_env={"GOGARBLE": val})
+    done += 1
+    if p.returncode != 0:
+        R.violation("test-variant-build-fails", "GOGARBLE=%s garble test -c ./p fails: %s" % (val, short(p.stderr, 600)), {"module/" + k: c for k, c in TMOD.items()}); continue
+    data = read(d + "/test.bin", "rb")
+    for name in ("QzProdFuncKx", "qzInternalHelperKx", "qzExternalHelperKx", "QzOtherFuncKx"):
+        present = name.encode() in data
+        if name in sel and present:
+            R.violation("test-variant-not-obfuscated:" + name, "GOGARBLE=%s: %s of a selected package's test variant is in the test binary" % (val, name), {"module/" + k: c for k, c in TMOD.items()})
+        if name not in sel and not present:
+            R.violation("test-variant-unselected-altered:" + name, "GOGARBLE=%s: %s of an unselected package is no longer in the test binary" % (val, name), {"module/" + k: c for k, c in TMOD.items()})
+    o = exec_bin(d + "/test.bin", ["-test.v"], cwd=d)
+    if b"PASS" not in o.stdout or o.returncode != 0:
+        R.violation("test-variant-behaviour", "GOGARBLE=%s: the garbled test binary fails: %s" % (val, short(o.stdout + o.stderr, 500)))
 # boundary: identical structs converted between a selected and an unselected package
 BMOD = {"go.mod": "module example.com/qzb\n\ngo 1.26\n",
         "main.go": "package main\n\nimport (\n\t\"fmt\"\n\n\t\"example.com/qzb/lib\"\n\t\"example.com/qzb/other\"\n)\n\nfunc main() { fmt.Println(other.Show(other.Same(lib.Same{A: 1, B: \"x\"})), lib.Get(other.Make()).A) }\n",
